@@ -102,9 +102,10 @@ class Circuit:
     def __iadd__(self, other: Circuit | stim.Circuit) -> Circuit:
         """Append another circuit to this circuit in-place."""
         if isinstance(other, Circuit):
-            self._stim_circ += other._stim_circ
+            self._stim_circ += other._stim_circ.copy()
         else:
             self._stim_circ += other
+        self._stim_circ = self._stim_circ.flattened()
         return self
 
     def __add__(self, other: Circuit | stim.Circuit) -> Circuit:
